@@ -61,6 +61,10 @@ CHECKS = {
    "TLA+ spec Instance.tla model-checked by TLC (Pure; negative controls) and every enumerated call history replayed on real instances with concrete document assignments; per-document outputs and tree digests judged by the TLA+ law AllSame of Meta.tla",
    "TLC enumerates all histories of 3 (thorough: 4) calls over 4 abstract documents x {Convert, Parse+Render, ReRender} x {long-lived, fresh instance}; 40 (400) seeded assignments of concrete documents (a hand list exercising reference maps, heading ids, footnotes, typographer quotes, tables, fences, lists, attributes; repository and mutated documents) x 8 (32) configurations replay them; in addition ALL ordered pairs X-then-Y of a 240 (940) document set run as Convert(X); Parse+Render(Y); ReRender(Y) on one instance. Every output is compared with the fresh-instance output of the same document and the tree digest is compared around every Render. 514k API calls quick.",
    "TLC, Json/IOUtils; tree digest = kinds, child counts, attributes, segments, flags", "DESIGN.md 3.3, 5/C06"),
+ "C12": ("exploration",
+   "Frame condition FrameLaw of the TLA+ module Meta.tla evaluated by TLC on (source hash before, after, faulted) triples recorded from real conversions of read-only memory; workload from the TLC-enumerated Slots.tla product; the observer is memory protection (PROT_READ page + SetPanicOnFault)",
+   "Every document of the Slots.tla product, ~950 repository examples and 2500 (60000) mutated documents is copied to the end of a read-only mapping followed by a guard page and converted under 32 rotating (thorough: all 256) configurations; any store, including an append into the spare capacity of a sub-slice of the source, faults and is recorded; 17 exported util functions are called on random and whole sub-slices of read-only inputs. 806k calls quick. The specification contributes the frame condition and the enumerated workload only, so the level is exploration.",
+   "mmap/mprotect/SetPanicOnFault (self-tested at the start of every run); TLC, Json/IOUtils", "DESIGN.md 5/C12, 7"),
 }
 
 NOT_YET = "check not built yet in this revision of /verif (see DESIGN.md section 5 for the planned TLA+ decision procedure)"
